@@ -45,6 +45,30 @@ def _code_of(obj):
     return getattr(obj, '__code__', None)
 
 
+def _module_codes(modname):
+    import types
+    try:
+        mod = importlib.import_module(modname)
+    except ImportError:
+        return []
+    out = []
+
+    def take(obj):
+        code = _code_of(obj)
+        if code is not None and code.co_filename == getattr(mod, '__file__', None) and code not in out:
+            out.append(code)
+    for value in vars(mod).values():
+        if isinstance(value, types.FunctionType):
+            take(value)
+        elif isinstance(value, type) and value.__module__ == modname:
+            for member in vars(value).values():
+                member = getattr(member, 'fget', member)          # properties
+                member = getattr(member, '__func__', member)      # static / class methods
+                if isinstance(member, types.FunctionType):
+                    take(member)
+    return out
+
+
 @contextlib.contextmanager
 def line_delays(names, seed=0, delays=(0.0, 0.0, 0.001, 0.003), stats=None):
     """stats: dict that receives 'hits' (lines delayed) and 'functions' (names found)."""
@@ -54,6 +78,13 @@ def line_delays(names, seed=0, delays=(0.0, 0.0, 0.001, 0.003), stats=None):
     mon = getattr(sys, 'monitoring', None)
     codes = []
     for name in names:
+        if name.endswith('.*'):
+            # every function and method defined in that module (helpers added later included)
+            found = _module_codes(name[:-2])
+            codes.extend(found)
+            if found:
+                stats['functions'].append('%s (%d functions)' % (name, len(found)))
+            continue
         code = _code_of(_resolve(name))
         if code is not None:
             codes.append(code)
